@@ -32,6 +32,9 @@ pub struct Cfg {
     pub prefix: Vec<Act>,
     #[serde(default)]
     pub prefix_name: String,
+    /// when non-empty only these operations (plus handle drops) are in the alphabet
+    #[serde(default)]
+    pub restrict: Vec<Op>,
 }
 impl Cfg {
     pub fn name(&self) -> String {
@@ -83,6 +86,8 @@ struct FutSlot {
     /// last poll returned Pending
     pending: bool,
     kind: &'static str,
+    /// payload id of a single-send future (broadcast model)
+    val: Id,
 }
 #[derive(Default)]
 struct StreamReg {
@@ -241,6 +246,9 @@ impl World {
                 if slim && matches!(op, Op::TrySendBatchMut | Op::SendBatchMut | Op::SendBatchFut) {
                     continue;
                 }
+                if !self.cfg.restrict.is_empty() && !self.cfg.restrict.contains(&op) {
+                    continue;
+                }
                 let ok = match op {
                     Op::Send => self.bmodel.as_ref().map(|b| b.send_nonblocking(1)).unwrap_or_else(|| self.model.send_nonblocking(i, 1)),
                     Op::SendBatch | Op::SendBatchMut => self.bmodel.as_ref().map(|b| b.send_nonblocking(2)).unwrap_or_else(|| self.model.send_nonblocking(i, 2)),
@@ -268,6 +276,9 @@ impl World {
                     continue;
                 }
                 if slim && matches!(op, Op::TryRecvBatchMut | Op::RecvBatchMut | Op::RecvBatchFut) {
+                    continue;
+                }
+                if !self.cfg.restrict.is_empty() && !self.cfg.restrict.contains(&op) {
                     continue;
                 }
                 let ok = match op {
@@ -410,6 +421,7 @@ impl World {
                         let fut = self.txs[i].as_ref().unwrap().send_fut(v).expect("send_fut");
                         let mi = self.model.new_fut(FutSt::Send { h: i, v: id, fired: false });
                         self.push_fut(mi, fut, true, i, "send_future");
+                        self.futs[mi].val = id;
                         (Out::Unit, Ok(()))
                     }
                     Op::SendBatchFut => {
@@ -621,10 +633,10 @@ impl World {
 
     fn push_fut(&mut self, model_idx: usize, fut: Fut, is_tx: bool, handle: usize, kind: &'static str) {
         while self.futs.len() < model_idx {
-            self.futs.push(FutSlot { fut: None, is_tx, handle, polled: false, pending: false, kind });
+            self.futs.push(FutSlot { fut: None, is_tx, handle, polled: false, pending: false, kind, val: 0 });
         }
         debug_assert_eq!(self.futs.len(), model_idx);
-        self.futs.push(FutSlot { fut: Some(fut), is_tx, handle, polled: false, pending: false, kind });
+        self.futs.push(FutSlot { fut: Some(fut), is_tx, handle, polled: false, pending: false, kind, val: 0 });
     }
 
     /// poll every live future of the task that owns handle (is_tx, h), in slot order
@@ -649,7 +661,12 @@ impl World {
                 slot.fut = None;
             }
             let name = format!("async.{}", kind);
-            let m = self.model.poll_fut(i, &out, &name);
+            let (is_txf, hf, vf) = (self.futs[i].is_tx, self.futs[i].handle, self.futs[i].val);
+            let m = match self.bmodel.as_mut() {
+                Some(b) if is_txf => b.poll_send_fut(vf, &out, &name),
+                Some(b) => b.poll_recv_fut(hf, &out, &name),
+                None => self.model.poll_fut(i, &out, &name),
+            };
             self.log.push((a, out.clone()));
             if let Err(m) = m {
                 return Err(self.fail(m, &name));
@@ -842,7 +859,10 @@ pub fn replay(cfg: &Cfg, hist: &[Act]) -> (Vec<(Act, Out)>, Option<Fail>) {
 impl<'a> Explorer<'a> {
     pub fn run(&mut self) {
         // the start-state prefix must be made of enabled actions; otherwise the scenario does not apply
-        let mut w = World::new(self.cfg);
+        // (the alphabet restriction applies to the enumeration, not to the start-state prefix)
+        let mut vcfg = self.cfg.clone();
+        vcfg.restrict.clear();
+        let mut w = World::new(&vcfg);
         for a in &self.cfg.prefix {
             if !w.enabled().contains(a) {
                 std::mem::forget(w);
